@@ -18,7 +18,11 @@ PROP = "C01"
 
 # (RA, RB) rep classes
 REPS = {"ii": ("int", "int"), "dd": ("double", "double"), "u8": ("uint8_t", "uint8_t"),
-        "id": ("int", "double")}
+        "id": ("int", "double"), "sd": ("int16_t", "double")}
+
+WIDEN_FIRST = {"add", "sub", "eq", "ne", "lt", "le", "gt", "ge", "spaceship", "min", "max", "clamp_v", "clamp_lo", "clamp_hi",
+               "p_sub", "p_eq", "p_ne", "p_lt", "p_le", "p_gt", "p_ge", "p_spaceship", "p_plus_q", "q_plus_p", "p_minus_q", "p_min", "p_max",
+               "p_clamp_v", "p_clamp_lo", "p_clamp_hi"}
 
 QSETUP = ("auto a = au::make_quantity<A>(RA(1)); auto a2 = au::make_quantity<A>(RA(3)); "
           "auto b = au::make_quantity<B>(RB(2)); (void)a; (void)a2; (void)b;")
@@ -292,6 +296,8 @@ def twin_b(direction, ra, rb):
         return "struct B : A {};"
     if direction == "inv":
         # K = 1/(B*A) = 10^6 : passes the integral threshold; any value is fine for explicit-rep / fp
+        if model.canon(ra) in ("int16_t", "uint16_t"):
+            return None  # the unit-only inverse needs K >= 10^6 in the quantity's own rep: no 16-bit twin
         if model.canon(rb) in ("uint8_t", "int8_t") or model.canon(ra) in ("uint8_t", "int8_t"):
             return "struct B : decltype(au::pow<-1>(A{}) / au::mag<100>()) {};"  # K = 100 fits 8 bits
         return "struct B : decltype(au::pow<-1>(A{}) / au::mag<1000000>()) {};"
@@ -336,11 +342,11 @@ def body(ctx):
     if ctx.thorough:
         rnd.shuffle(pairs)
         chosen = pairs[:30]  # x 4 rep classes x ~280 operation forms x 6 configurations: about an hour
-        repsel = ["ii", "dd", "u8", "id"]
+        repsel = ["ii", "dd", "u8", "id", "sd"]
     else:
         rnd.shuffle(pairs)
         chosen = pairs[:8]
-        repsel = ["ii", "dd", "u8", "id"]
+        repsel = ["ii", "dd", "u8", "id", "sd"]
     configs = cxx.configs_for(ctx.tier)
 
     items = []
@@ -392,6 +398,10 @@ def body(ctx):
                     if "noeight" in opt and rk == "u8":
                         continue
                     tb = twin_b(direction, ra, rb)
+                    if rk == "sd" and nm in WIDEN_FIRST:
+                        # these operators bring both operands to the common REP first: a narrow integral
+                        # operand that has to be scaled far beyond its own rep is permitted
+                        tb = "struct B : decltype(A{} / au::mag<1000000>()) {};"
                     if tb is None:
                         continue
                     items.append(witness.Item(
